@@ -26,7 +26,18 @@ F = Fr
 
 # ------------------------------------------------------------------------------------------------ helpers
 def fs(x):
-    return frac_str(float(x))
+    x = float(x)
+    if x != x:
+        return "nan"
+    if x in (float("inf"), float("-inf")):
+        return "inf" if x > 0 else "-inf"
+    return frac_str(x)
+
+
+def feq(x, target):
+    """exact equality of a float of the implementation with a Fraction (nan / inf are never equal)"""
+    x = float(x)
+    return x == x and x not in (float("inf"), float("-inf")) and F(x) == target
 
 
 def str_frac(x):
@@ -93,25 +104,30 @@ def near_end(x, e, a, b):
     return abs(x - e) <= 1e-12 * (b - a)
 
 
-def make_function(dim, comps):
-    """comps: list of components, each ('tab', dict point->Fraction) or ('hat', a, b, k, i); a Function subclass
-    with output_length len(comps) evaluating them exactly (dyadic values -> exact floats)"""
+def make_function(dim, comps, box=None):
+    """comps: list of components, each ('tab', dict point->Fraction, label) or ('hat', a, b, k, i); a Function subclass
+    with output_length len(comps) evaluating them exactly (dyadic values -> exact floats).  The function RECORDS every
+    point at which it is evaluated (`evaluated`).  A table labelled 'singular' is infinite wherever a coordinate lies on
+    the boundary of `box = (a, b)` (the kind of function boundary=False exists for)."""
     from sparseSpACE.Function import Function
 
     class TabFunction(Function):
         def __init__(self):
             super().__init__()
             self.comps = comps
+            self.evaluated = set()
 
         def output_length(self):
             return len(self.comps)
 
         def eval(self, coordinates):
             p = tuple(float(c) for c in coordinates)
+            self.evaluated.add(p)
+            on_bd = box is not None and any(p[d] == box[0][d] or p[d] == box[1][d] for d in range(dim))
             out = []
             for c in self.comps:
                 if c[0] == "tab":
-                    out.append(float(c[1].get(p, 0)))
+                    out.append(float("inf") if (on_bd and c[2] == "singular") else float(c[1].get(p, 0)))
                 else:
                     _, a, b, k, i = c
                     v = 1.0
@@ -135,14 +151,16 @@ def comp_value(dim, c, p):
     return v
 
 
-def build(cfg, f, interp_op):
+def build(cfg, f, interp_op, integrator=None):
     from sparseSpACE.StandardCombi import StandardCombi
     from sparseSpACE.GridOperation import Integration, Interpolation
     from sparseSpACE.Grid import TrapezoidalGrid
     from sparseSpACE.Utils import print_levels, log_levels
     a = np.array(cfg["a"], dtype=float)
     b = np.array(cfg["b"], dtype=float)
-    grid = TrapezoidalGrid(a, b, boundary=cfg["bd"])
+    # integrator=None: IntegratorArbitraryGridScalarProduct (points x weights); 'old': the index-based
+    # IntegratorArbitraryGrid (getWeight / getCoordinate per index vector)
+    grid = TrapezoidalGrid(a, b, boundary=cfg["bd"], integrator=integrator)
     cls = Interpolation if interp_op else Integration
     op = cls(f, grid=grid, dim=cfg["dim"])
     sc = StandardCombi(a, b, operation=op, print_level=print_levels.NONE, log_level=log_levels.NONE)
@@ -236,8 +254,11 @@ def gen_components(ctx, cfg, sg_sorted, kinds=None):
     comps = []
     I = simplex(dim, lmin, lmax)
     for j in range(m):
-        kind = kinds[j % len(kinds)] if kinds else r.choice(["table", "table", "unit", "hat", "hat", "sparse"])
-        if kind == "table":      # arbitrary values on every sparse-grid point (and on the domain boundary)
+        kind = kinds[j % len(kinds)] if kinds else r.choice(["table", "table", "unit", "hat", "hat", "sparse"] +
+                                                            ([] if bd else ["singular", "singular"]))
+        if kind == "singular":   # arbitrary values on the sparse grid, infinite on the boundary of the box (boundary off)
+            comps.append(("tab", {p: rand_dyadic(r) for p in sg_sorted}, "singular"))
+        elif kind == "table":      # arbitrary values on every sparse-grid point (and on the domain boundary)
             t = {p: rand_dyadic(r) for p in sg_sorted}
             if not bd:           # values on the boundary must be ignored (zero-boundary interpolant)
                 for p in r.sample(sg_sorted, min(len(sg_sorted), 6)):
@@ -412,10 +433,15 @@ class Runner:
         us = info["union"]
         interp_op = ctx.rng.random() < 0.5 if "interp_op" not in case else case["interp_op"]
         lv_one = info["scheme"][ctx.rng.randrange(len(info["scheme"]))][0] if "lv_one" not in case else tuple(case["lv_one"])
+        if "integrator" in case:
+            integrator = case["integrator"]
+        else:   # both integrator options; the index-based one loops in Python, keep it to moderate sizes
+            integrator = "old" if (ctx.rng.random() < 0.4 and len(info["P"]) <= 4000) else None
         case = dict(case, comps=[comp_to_case(c) for c in comps], xs=[list(p) for p in xs], coords=coords, interp_op=interp_op,
-                    lv_one=list(lv_one))
-        f = make_function(dim, comps)
-        sc, grid, op = build(cfg, f, interp_op)
+                    lv_one=list(lv_one), integrator=integrator)
+        tags = dict(tags, integrator=integrator or "scalar-product")
+        f = make_function(dim, comps, (a, b))
+        sc, grid, op = build(cfg, f, interp_op, integrator)
         try:
             with quiet():
                 _, _, integral = sc.perform_operation(lmin, lmax)
@@ -428,6 +454,15 @@ class Runner:
             self.viol("exception", dict(tags, exc=type(e).__name__), case, {"exc": repr(e)[:300]})
             return
         gpts = list(itertools.product(*coords))
+        # the function may only be evaluated at points of the sparse grid ("the union of the component-grid points is
+        # exactly that sparse grid"); in particular, with boundary points off, never on the boundary of the box
+        usset = set(us)
+        off = sorted(f.evaluated - usset)
+        if off:
+            on_boundary = [p for p in off if any(p[d] == a[d] or p[d] == b[d] for d in range(dim))]
+            self.viol("evaluated-outside-sparse-grid", dict(tags, on_boundary=bool(on_boundary)), case,
+                      {"n_points": len(off), "first": [list(p) for p in off[:3]]})
+        ctx.count("function_evaluations", len(f.evaluated))
         # false-boundary classification (independent of the model): an interior sparse-grid point that
         # the boundary test of points_not_zero counts as lying on the boundary (cannot happen after the repair)
         false_bd = (not bd) and any(near_end(p[d], a[d], a[d], b[d]) or near_end(p[d], b[d], a[d], b[d]) for p in us for d in range(dim))
@@ -455,11 +490,11 @@ class Runner:
             usset = set(us)
             if c[0] == "tab":      # nodal reproduction at every requested sparse-grid point
                 bad = [(p, fs(vals[n, j]), str(comp_value(dim, c, p))) for n, p in enumerate(xs)
-                       if p in usset and F(float(vals[n, j])) != comp_value(dim, c, p)]
+                       if p in usset and not feq(vals[n, j], comp_value(dim, c, p))]
                 if bad:
                     self.viol("nodal-reproduction", dict(tags2, kind=c[2]), cj, {"first": [list(bad[0][0]), bad[0][1], bad[0][2]], "n_bad": len(bad)})
                 badg = [(p, fs(gvals[n, j])) for n, p in enumerate(gpts)
-                        if p in usset and F(float(gvals[n, j])) != comp_value(dim, c, p)]
+                        if p in usset and not feq(gvals[n, j], comp_value(dim, c, p))]
                 if badg:
                     self.viol("nodal-reproduction-grid", dict(tags2, kind=c[2]), cj, {"first": [list(badg[0][0]), badg[0][1]], "n_bad": len(badg)})
                 # sum of combined weights x values = reported integral
@@ -469,30 +504,31 @@ class Runner:
                         v = c[1].get(tuple(float(x) for x in p))
                         if v:
                             s += v * F(float(w))
-                    if s != F(float(integral[j])):
+                    if not feq(integral[j], s):
                         self.viol("weights-vs-integral", tags, cj, {"sum_w_f": str(s), "integral": fs(integral[j])})
             else:                  # hat-space exactness: interpolation everywhere, integration in closed form
                 bad = [(p, fs(vals[n, j]), str(comp_value(dim, c, p))) for n, p in enumerate(xs)
-                       if F(float(vals[n, j])) != comp_value(dim, c, p)]
+                       if not feq(vals[n, j], comp_value(dim, c, p))]
                 if bad:
                     self.viol("hat-interpolation", dict(tags2, level=list(c[3])), cj, {"first": [list(bad[0][0]), bad[0][1], bad[0][2]], "n_bad": len(bad)})
-                badg = [(p, fs(gvals[n, j])) for n, p in enumerate(gpts) if F(float(gvals[n, j])) != comp_value(dim, c, p)]
+                badg = [(p, fs(gvals[n, j])) for n, p in enumerate(gpts) if not feq(gvals[n, j], comp_value(dim, c, p))]
                 if badg:
                     self.viol("hat-interpolation-grid", dict(tags2, level=list(c[3])), cj, {"first": [list(badg[0][0]), badg[0][1]], "n_bad": len(badg)})
                 exact = F(1)
                 for d in range(dim):
                     h = (F(b[d]) - F(a[d])) / 2 ** c[3][d]
                     exact *= h / 2 if c[4][d] in (0, 2 ** c[3][d]) else h
-                if F(float(integral[j])) != exact:
+                if not feq(integral[j], exact):
                     self.viol("hat-integral", dict(tags, level=list(c[3])), cj, {"integral": fs(integral[j]), "exact": str(exact)})
             # interpolate_grid = __call__ on the cross product
             with quiet():
                 v2 = np.array(sc(gpts), dtype=float)
-            if not np.array_equal(v2[:, j], gvals[:, j]):
+            if not np.array_equal(v2[:, j], gvals[:, j], equal_nan=True):
                 self.viol("grid-vs-pointwise", tags, cj, {"call": fmt_vals(v2[:, j])[:200], "interpolate_grid": fmt_vals(gvals[:, j])[:200]})
             ctx.count("component_" + (c[2] if c[0] == "tab" else "hat"))
         ctx.count("bundle_outlen_%d" % len(comps))
         ctx.count("op_interpolation" if interp_op else "op_integration")
+        ctx.count("integrator_" + (integrator or "scalar_product"))
 
     # -------------------------------------------------------------------------- evaluation points
     def eval_points(self, cfg, us, nmax):
@@ -547,7 +583,7 @@ def run_config(ctx, drv, cfg, bundles=None, far=False, nbundles=2, replaying=Non
         for rb in replaying:
             comps = [comp_from_case(cfg, j) for j in rb["comps"]]
             c2 = dict(case)
-            for k in ("interp_op", "lv_one"):
+            for k in ("interp_op", "lv_one", "integrator"):
                 if k in rb:
                     c2[k] = rb[k]
             R.bundle(cfg, c2, info, comps, [tuple(p) for p in rb["xs"]], rb["coords"], far)
@@ -735,7 +771,7 @@ def replay(ctx, rp):
     drv = ctx.driver("drv_c02")
     rb = None
     if "comps" in case:
-        rb = [{k: case[k] for k in ("comps", "xs", "coords", "interp_op", "lv_one") if k in case}]
+        rb = [{k: case[k] for k in ("comps", "xs", "coords", "interp_op", "lv_one", "integrator") if k in case}]
     ok, _ = run_config(ctx, drv, case["cfg"], far=case.get("far", False), replaying=rb if rb is not None else [])
     known = sum(v[1] for v in ctx.known_hits.values() if v[0].get("probe") == rp.get("probe"))
     print("replay: %s" % ("property holds and model agrees on this case" if ok and not known else "REPRODUCED"))
